@@ -223,13 +223,11 @@ func (l *LSTM) Apply(inputs []tensor.Tensor) ([]tensor.Tensor, error) {
 		return nil, err
 	}
 
-	outputMap := map[string]tensor.Tensor{
-		"Y": Y, "Y_h": Yh, "Y_c": Yc,
-	}
-
-	result := []tensor.Tensor{}
-	for _, outputName := range l.outputs {
-		result = append(result, outputMap[outputName])
+	// The outputs of a node are identified by their position (Y, Y_h, Y_c), whatever their
+	// names are. Trailing outputs that the node does not declare are omitted.
+	result := []tensor.Tensor{Y, Yh, Yc}
+	if len(l.outputs) < len(result) {
+		result = result[:len(l.outputs)]
 	}
 
 	return result, nil
